@@ -4,6 +4,8 @@ CONSTANTS
   s2 = s2
   o1 = o1
   o2 = o2
+  w1 = w1
+  w2 = w2
   None = None
   Starts = {s1}
   IdOf <- IdOfDef
@@ -18,6 +20,8 @@ CONSTANTS
   AllowClose = TRUE
   AllowDo = TRUE
   AllowIndicate = TRUE
+  WObjs = {w1}
+  PoolOnError = FALSE
   IdleCollects = 0
   RtoChanges = 0
   DeadlineTicks = FALSE
